@@ -327,6 +327,30 @@ def r19_5(ctx):
         ctx.bad("R19.5", "server", "<module>", f"/{pat}/", "literal pattern is no longer '{digits}[+]' anchored at the end of the line", 0)
 
 
+def r19_5b(ctx):
+    """A literal may stand anywhere an astring / nstring may: after a space, but also right after `(` or `[`
+    (`ID ({4}`, `BODY.PEEK[HEADER.FIELDS ({4}`, LIST-EXTENDED patterns).  The front end finds a declaration by searching
+    the line just read for `{digits}[+]` *at its end* - whatever comes before the brace.  A pattern that also constrains
+    the character in front of the brace stops recognising legal declarations: the truncated line is relayed as a command
+    and the client waits for a `+` that never comes (or its literal octets are read as commands)."""
+    import re._parser as sre  # type: ignore[import-not-found]
+
+    p = ctx.p
+    pat = _regex_src(p, "server")
+    ctx.require(pat is not None, "RE_LITERAL_STRING_START not found", anchor=True)
+    src = pat.decode("latin-1") if isinstance(pat, bytes) else pat
+    try:
+        items = list(sre.parse(src))
+    except Exception as e:  # noqa: BLE001
+        ctx.bad("R19.5", "server", "<module>", f"/{src}/", f"literal pattern does not parse: {e}", 0)
+        return
+    first = items[0] if items else None
+    if first is not None and str(first[0]) == "LITERAL" and first[1] == ord("{"):
+        ctx.ok("R19.5", "server:<module>", f"/{src}/ begins with the brace itself: a declaration is recognised whatever precedes it on the line")
+    else:
+        ctx.bad("R19.5", "server", "<module>", f"/{src}/", "the literal pattern constrains what stands in front of `{`: a declaration that directly follows `(` or `[` (`ID ({4}`, `BODY.PEEK[HEADER.FIELDS ({4}`) is no longer recognised - the line is relayed truncated and the literal's octets are taken for commands", 0)
+
+
 def r19_6_7(ctx):
     p = ctx.p
     fi = p.func("server.IMAPClient.start")
@@ -462,5 +486,6 @@ def run(ctx):
     ctx.do(r19_3)
     ctx.do(r19_4)
     ctx.do(r19_5)
+    ctx.do(r19_5b)
     ctx.do(r19_6_7)
     ctx.do(r19_9)
